@@ -95,6 +95,10 @@ func (f *fakeRedis) serve(c net.Conn) {
 			v := f.raws[0]
 			f.raws = f.raws[1:]
 			f.mu.Unlock()
+			if v == errRaw {
+				fmt.Fprint(c, "-ERR injected failure\r\n")
+				continue
+			}
 			fmt.Fprintf(c, ":%d\r\n", v)
 		default:
 			fmt.Fprint(c, "-ERR unknown command\r\n")
@@ -140,6 +144,10 @@ func guardRaws(r *Rng) []int64 {
 	raws := make([]int64, n)
 	v := int64(r.Range(-3, 5))
 	for i := range raws {
+		if r.Chance(1, 12) {
+			raws[i] = errRaw // the client call fails here
+			continue
+		}
 		switch r.Intn(8) {
 		case 0:
 			v -= int64(r.Range(0, 4)) // a counter that was reset or restored from a backup
